@@ -58,12 +58,14 @@ Inductive case :=
    which = 0 hals (row-update fixed point is tested), 1 fista / active set (projected-gradient fixed point with step lr) *)
 | CConv (id : nat) (which : nat) (UtM UtU : qmat) (n : nat) (l1 l2 eps lr : Q) (V Xstar : qmat) (tstep tkkt tobj : Q)
 | CFista (id : nat) (UtM UtU : qmat) (n : nat) (nonneg : bool) (sp rd lr tol eps : Q) (x0 : qmat) (betas : list Q) (impl : qmat)
+(* fista with UtU = [A, B] (list branch), unknown r1 x r2 *)
+| CFista2 (id : nat) (UtM A B : qmat) (r2 : nat) (nonneg : bool) (sp rd lr tol eps : Q) (x0 : qmat) (betas : list Q) (impl : qmat)
 | CAset (id : nat) (Utm : list Q) (UtU : qmat) (x0 : option (list Q)) (iters : nat) (tol : Q) (impl : option (list Q))
 | CAdmm (id : nat) (UtM UtU x dual : qmat) (m r : nat) (implx implsplit : qmat).
 
 Definition ident (c : case) : nat :=
   match c with CHals i _ _ _ _ _ _ _ _ _ _ => i | CConv i _ _ _ _ _ _ _ _ _ _ _ _ _ => i
-             | CFista i _ _ _ _ _ _ _ _ _ _ _ _ => i | CAset i _ _ _ _ _ _ => i | CAdmm i _ _ _ _ _ _ _ _ => i end.
+             | CFista i _ _ _ _ _ _ _ _ _ _ _ _ => i | CFista2 i _ _ _ _ _ _ _ _ _ _ _ _ _ => i | CAset i _ _ _ _ _ _ => i | CAdmm i _ _ _ _ _ _ _ _ => i end.
 
 Definition atol : Q := 1 # 1000000000.
 Definition rtol : Q := 1 # 1000000000.
@@ -114,6 +116,12 @@ Definition agree (c : case) : bool :=
     mclose atol rtol (snd tr) impl
     || (negb (all_clear (fst tr))
         && existsb (fun k => mclose atol rtol (fista Qops UtM UtU n nonneg sp rd lr 0 eps x0 (firstn k betas)) impl)
+                   (rev (seq 0 (S (length betas)))))
+  | CFista2 _ UtM A B r2 nonneg sp rd lr tol eps x0 betas impl =>
+    let tr := fista2_trace Qops UtM A B r2 nonneg sp rd lr tol eps betas true 0%Q x0 x0 in
+    mclose atol rtol (snd tr) impl
+    || (negb (all_clear (fst tr))
+        && existsb (fun k => mclose atol rtol (fista2 Qops UtM A B r2 nonneg sp rd lr 0 eps x0 (firstn k betas)) impl)
                    (rev (seq 0 (S (length betas)))))
   | CAset _ Utm UtU x0 iters tol impl =>
     match active_set_nnls Qops (gauss_solve Qops) (fun x => x) Utm UtU tol x0 iters, impl with
